@@ -15,6 +15,12 @@ CLAIMED = {
  'C01': ('bounded exhaustive input enumeration on the real code (all object specs of a finite alphabet, both escaping modes), strict attribute-level round-trip oracle',
          'Every typed value of the 15 CIM types as scalar/array/NULL in five carriers, every string up to length L over 16 atoms in every string context and at embedding depth 0..3, attribute combinations and small object trees with all child permutations are encoded with tocimxml() and parsed back with the real parser twice (entity and CDATA escaping); the result is compared attribute by attribute (exact types, case, order) with the original under the DSP0201 defaults, and the second round must be a fixed point with byte-identical XML. Exhaustive within the stated bounds.',
          'trusts mc/objdump.py (strict dump/diff, DSP0201 default table); Real32 values are compared at float32 precision; hosts without namespace and CIMClass.path are not representable in the encoded element and are excluded', '§5 C01'),
+ 'C03': ('bounded exhaustive enumeration of operation calls (<= k parameters off default) and object specs on the real code; independent validator (libxml2 well-formedness + DSP0203 DTD)',
+         'All 41 operation methods are called with every argument set that has at most k parameters away from a minimal valid call (per-parameter domains include unusual names, XML-illegal strings, every object kind), for three default namespaces and both pull modes of Iter*; the captured HTTP body must be well-formed XML 1.0, DTD-valid, and the CIMOperation/CIMMethod/CIMObject/Content-Length headers must agree with the body; tocimxmlstr() of every enumerated object spec is validated the same way. Exhaustive within the bounds.',
+         'trusts lxml/libxml2 and tests/dtd/DSP0203_2.3.1.dtd; listener responses are validated by the C17 check', '§5 C03'),
+ 'C04': ('explicit-state breadth-first exploration of operation histories on the real client code against a CIM-XML server facade, differential against the direct (mock) path',
+         'Every event of a ~300-event alphabet (all intrinsic operations, open/pull/close sessions, InvokeMethod with every parameter type) is executed both through the real WBEMConnection HTTP/CIM-XML path (requests transport adapter -> facade that decodes with the server-side parse functions, executes on a mock repository and encodes the reply) and directly on an equal repository; breadth-first to depth 2 (3 in thorough) with deduplication on the canonical dump of both repositories and open sessions. After every event: decoded request == arguments of the direct entry point, outcome equal (result objects strictly, or CIMError code), repositories equal.',
+         'trusts mc/facade.py (DSP0200 parameter-type and return-element tables); both paths share the client-side _iparam_* argument normalisation, so a fault there that affects both paths equally is not visible to this differential oracle', '§5 C04'),
 }
 NOT_YET = 'check not built yet in this round (planned, see DESIGN.md §5); not claimed until it exists'
 
